@@ -32,7 +32,7 @@ LEVEL_TEXT = ("Exploration over all ~390 classes: thousands of generated instanc
 LEVEL_NOTE = "Trusts the instance generator's notion of validity (derived from class declarations) and modelwalk equality."
 DESIGN_REF = "DESIGN.md §3 C01"
 MIN_COUNTERS = {"quick": {"roundtrips": 8000, "classes_covered": 380, "monitor_init_postcondition_calls": 20000, "monitor_to_etree_postcondition_calls": 20000},
-                "thorough": {"roundtrips": 400000, "classes_covered": 380, "monitor_init_postcondition_calls": 200000, "monitor_to_etree_postcondition_calls": 200000}}
+                "thorough": {"roundtrips": 300000, "classes_covered": 380, "monitor_init_postcondition_calls": 200000, "monitor_to_etree_postcondition_calls": 200000}}
 
 FORMS = [("xml", 203, False, True), ("xml-pretty", 220, True, True), ("sgml-closed", 102, False, True), ("sgml-closed-pretty", 160, True, True),
          ("sgml-unclosed", 103, False, False), ("sgml-unclosed-pretty", 151, True, False)]
@@ -121,7 +121,10 @@ def one_instance(ctx, name, cls, profile, seedstr, forms):
     case = {"cls": name, "profile": profile, "seedstr": seedstr}
     ctx.current_case = case
     try:
-        inst = instances.build(cls, random.Random(seedstr), profile)
+        # "<profile>+none": the children the instance does not have are handed to the constructors as keyword=None
+        inst = instances.build(cls, random.Random(seedstr), profile.split("+")[0], opts=instances.Opts(explicit_none=profile.endswith("+none")))
+        if profile.endswith("+none"):
+            ctx.count("instances_built_with_explicit_None")
     except instances.ConstructorRejected as e:
         ctx.ev()
         ctx.violation(f"constructor-rejects-valid-candidate/{e.clsname}", str(e)[:400], case)
@@ -176,7 +179,7 @@ def run_shard(ctx):
             break
         ctx.add("classes_covered_set", name)
         ctx.count("classes_covered")
-        profiles = ["min", "max"] + ["random"] * nrandom
+        profiles = ["min", "max"] + ["random"] * nrandom + ["min+none", "random+none"] + (["random+none"] * 20 if thorough else [])
         for pi, profile in enumerate(profiles):
             seedstr = f"C01/{ctx.seed}/{name}/{profile}/{pi}"
             forms = []
